@@ -525,8 +525,10 @@ def run_C08(tier, rng, chk):
             addr = rng.choice([0, 1, 15, rng.randrange(16)])
             ebv = rng.choice([0, 0, 0, 1, 2, 3])
             e = (rng.choice([0, 3]), ebv, rng.choice([0, 0, 1, 3]), rng.choice([0, 0, 1, 3]))
-            w1 = rng.choice([0x4142, 0x2020, 0x0D0D, 0x1F1F, 0x6162])
-            w2 = rng.choice([0x4344, 0x2020, 0x1F1F, 0x6364])
+            # pairs of which only the first / only the second character is storable too: "is this
+            # buffer empty?" must look at every cell, not at one per pair
+            w1 = rng.choice([0x4142, 0x2020, 0x0D0D, 0x1F1F, 0x6162, 0x1F58, 0x581F, 0x0A59])
+            w2 = rng.choice([0x4344, 0x2020, 0x1F1F, 0x6364, 0x1F5A, 0x5A1F])
             L.append(P(0, *text_group(rng, kind, addr, fl, w1, w2), e))
         st.append(("c08_toggle_%d" % i, L))
     out = chk.run_stream(st, prop="C08")
@@ -561,6 +563,32 @@ def run_C08(tier, rng, chk):
         rn.append(("c08_runs_%d" % i, L))
     out = chk.run_stream(rn, prop="C08")
     res.append(fam("runs(1..8 consecutive groups to be ignored at one error level, then the last flag again, then a real switch)", rn, out))
+    # "does the newly selected buffer hold anything?" must look at every cell: a buffer in which only
+    # odd (or only even, only the last, only one) cells were ever stored, then a switch away and back
+    sp = []
+    for i in range(scale(tier, 60, 300)):
+        L = ["0 I %d" % rng.choice([0, 255])] + ["0 R %d 1" % f for f in (8, 9, 10)]
+        L.append("0 T 1 0 %d" % rng.choice([0, 1, 2]))
+        L.append("0 T 1 1 %d" % rng.choice([0, 1, 2]))
+        fl = rng.randrange(2)
+        style = rng.choice(["odd", "odd", "even", "last", "one"])
+        for _ in range(rng.choice([1, 1, 2, 3])):
+            if style == "odd":
+                w = (rng.choice([0x1F, 0x0A, 0x00]) << 8) | rng.choice([0x58, 0x59, 0x41])
+            elif style == "even":
+                w = (rng.choice([0x58, 0x59, 0x41]) << 8) | rng.choice([0x1F, 0x0A, 0x00])
+            else:
+                w = rng.choice([0x4142, 0x1F58, 0x581F])
+            kind = "2B" if style != "odd" or rng.random() < 0.5 else "2A"
+            addr = 15 if style == "last" else rng.randrange(16)
+            wc = w if kind == "2A" else rng.randrange(65536)
+            L.append(P(0, *text_group(rng, kind, addr, fl, wc, w), (0, 0, 0, 0)))
+        # away and back, error-free; then once more
+        for f2 in (fl ^ 1, fl, fl ^ 1, fl):
+            L.append(P(0, *text_group(rng, rng.choice(["2A", "2B"]), rng.randrange(16), f2, 0x4344, 0x4546), (rng.choice([0, 3]), 0, rng.choice([0, 3]), rng.choice([0, 0, 3]))))
+        sp.append(("c08_sparse_%d" % i, L))
+    out = chk.run_stream(sp, prop="C08")
+    res.append(fam("sparsely filled buffers (only odd / only even / only the last cell stored), then a switch away and back", sp, out))
     return res
 
 
